@@ -27,11 +27,15 @@ fn main() {
     install_quiet_panic_hook();
     let thorough = args.get(1).map(|s| s == "thorough").unwrap_or(false);
     let t0 = std::time::Instant::now();
-    let ns: Vec<usize> = if thorough { (1..=33).chain([64, 300]).collect() } else { vec![1, 2, 3, 4, 5, 7, 8, 13, 16, 24, 31, 32, 33, 64] };
-    let repeats = if thorough { 4 } else { 2 };
+    // auxiliary ThreadSanitizer pass (same bodies, free-running): a reduced list in the quick tier
+    let tsan = std::env::var("C08_TSAN").is_ok();
+    let reduced = tsan && !thorough;
+    let thorough = thorough && !tsan;
+    let ns: Vec<usize> = if reduced { vec![1, 2, 3, 7, 32] } else if thorough { (1..=33).chain([64, 300]).collect() } else { vec![1, 2, 3, 4, 5, 7, 8, 13, 16, 24, 31, 32, 33, 64] };
+    let repeats = if reduced { 1 } else if thorough { 4 } else { 2 };
     let mut shapes: Vec<(u32, u32)> = vec![];
-    let hs: Vec<u32> = if thorough { vec![1, 2, 31, 32, 33, 40, 47, 64, 65, 100, 128, 255, 256, 257] } else { vec![1, 32, 33, 47, 64, 100, 257] };
-    let ws: Vec<u32> = if thorough { vec![1, 2, 3, 16, 31, 32, 33, 64, 100] } else { vec![1, 3, 33, 64] };
+    let hs: Vec<u32> = if reduced { vec![33, 64, 100] } else if thorough { vec![1, 2, 31, 32, 33, 40, 47, 64, 65, 100, 128, 255, 256, 257] } else { vec![1, 32, 33, 47, 64, 100, 257] };
+    let ws: Vec<u32> = if reduced { vec![3, 33] } else if thorough { vec![1, 2, 3, 16, 31, 32, 33, 64, 100] } else { vec![1, 3, 33, 64] };
     for &h in hs.iter() {
         for &w in ws.iter() {
             shapes.push((w, h));
@@ -42,7 +46,7 @@ fn main() {
     }
     shapes.sort();
     shapes.dedup();
-    for big in [4096u32, 65535, 65536, 65537] {
+    for big in if reduced { vec![] } else { vec![4096u32, 65535, 65536, 65537] } {
         shapes.push((1, big));
         shapes.push((big, 1));
         shapes.push((2, big));
@@ -114,7 +118,7 @@ fn main() {
     rep.absorb_ctx(ctx);
     rep.cases = cases;
     rep.planned = cases;
-    rep.spaces.push(json!({"space": "part 4: the same bodies under the real rayon, pool sizes 1..32 and above, repeated runs", "cases": cases, "pool_sizes": ns, "repeats": repeats, "wall_s": t0.elapsed().as_secs_f64()}));
+    rep.spaces.push(json!({"space": if tsan { "auxiliary: the same bodies under the real rayon with ThreadSanitizer (free-running race detection)" } else { "part 4: the same bodies under the real rayon, pool sizes 1..32 and above, repeated runs" }, "cases": cases, "pool_sizes": ns, "repeats": repeats, "wall_s": t0.elapsed().as_secs_f64()}));
     eprintln!("[C08 real rayon] cases {} runs {} violations {} {:.1}s", cases, rep.ops, rep.sig_counts.len(), t0.elapsed().as_secs_f64());
     let mut v = report_to_json(&rep);
     v["planned"] = json!(rep.planned);
